@@ -3821,6 +3821,11 @@ class DecVarSub(VarSub):
 
         return string
 
+    def __getitem__(self, item):
+
+        # a slice of a slice is still a slice of the dro decision variable
+        return DecVarSub(self.dro_model, self.dvars, self.indices[item])
+
     def to_affine(self):
 
         expr = super().to_affine()
@@ -3971,7 +3976,13 @@ class RandVarSub(VarSub):
     def __init__(self, rvars, indices):
 
         super().__init__(rvars, indices)
+        self.rvars = rvars
         self.e = VarSub(rvars.e, indices)
+
+    def __getitem__(self, item):
+
+        # a slice of a slice is still a slice of the random variable
+        return RandVarSub(self.rvars, self.indices[item])
 
     @property
     def E(self):
